@@ -66,6 +66,17 @@ CLAIMED.update({
          "DESIGN.md 3 C12"),
 })
 
+CLAIMED.update({
+ "C13": ("Coq proofs of the OT stack relations and of the multiplication protocol for all batch sizes/inputs + exact comparison of the bit-matrix helpers and relation checks on real runs + alteration search",
+         "transpose_bits_spec, corre_ot_relation, clmul_bilinear / accumulate_spec (the 64-round loop as written), extended_check_passes / extended_output, additive_ot_sum (all batch sizes), gadget_encode_decode, multiply_correct, multiply_check_passes, multiply_never_panics, multiply_malformed_rejected and the exact characterisation of accepted altered messages are proved with hashes/PRGs universally quantified. The harness compares transposeBits/accumulate/eq/makeGadget/encode with the model exactly, checks the defining relations of correlated/extended/additive OT and Multiply on real runs with the model's checkers (boundary scalars, all-0/all-1/alternating/random choices, reused setups), and alters every field of every OT/Multiply message: the checking side must return an error or the product must still be correct.",
+         "Secrecy is not claimed. `C13_multiply_check_sound` is proved in the partial form stated in Properties/C13.v (acceptance depends on hash-derived weights; alterations of the receiver's U columns change the hash transcript).",
+         "DESIGN.md 3 C13"),
+ "C11": ("Coq proofs that the nonce-derivation inputs of FROST round 1 and BIP-340 signing are injective in (share, session digest, message, randomness) / (key, aux, message) + equality-pattern comparison under constant, repeating and honest RNGs",
+         "C11_frost_nonce_input_inj, frost_nonce_binding (any KDF / keyed hash: equal nonces => equal tuples or an exhibited collision), frost_session_binding (composition with C09's session-tag injectivity), bip340_nonce_input_inj, bip340_rand_binding, bip340_counter_fresh are proved. The harness replaces crypto/rand.Reader by constant / repeating / honest readers, runs FROST and FROST-Taproot signing for context pairs differing in exactly one of message, signer set, session id, taproot flag, share, reads (D_i,E_i) from the round-2 broadcast and compares them byte for byte with the model's derivation (BLAKE3 by the harness, scalar multiplication by the reference); same for taproot.SecretKey.Sign incl. the nil-reader counter.",
+         "Collision resistance of BLAKE3 / SHA-256 appears only as explicit disjuncts.",
+         "DESIGN.md 3 C11"),
+})
+
 # properties whose check is complete enough to be claimed in MANIFEST.json right now
-READY = {"C19", "C09", "C18", "C07", "C17", "C01", "C02", "C08", "C14", "C06", "C20", "C16", "C12"}
+READY = {"C19", "C09", "C18", "C07", "C17", "C01", "C02", "C08", "C14", "C06", "C20", "C16", "C12", "C13", "C11"}
 CLAIMED = {k: v for k, v in CLAIMED.items() if k in READY}
